@@ -150,11 +150,17 @@ pub enum Instr {
     Drop { a: Reg },
     Gc,
     AddVars { k: u8 },
+    /// `manager.reorder(|m| m.add_vars(k))`: variable addition inside a reordering closure
+    AddVarsInReorder { k: u8 },
     AddNamed { names: Vec<String>, fault: IterFault },
     AddNamedMap { names: Vec<String> },
     SetName { v: u8, name: String },
     Order { order: Vec<u32>, seq: bool },
     NodeCount { a: Reg },
+    /// a diagram far beyond the reach of the truth-table model, in a manager of its own:
+    /// OR_i (x_i AND x_{k+i}) under the identity order has 2^(k+1) - 2 inner nodes; node_count()
+    /// against that closed form and against an independent traversal
+    BigCount { k: u8 },
     /// C12: `count` seeded operations on `Natural` numbers against the reference bignum
     NatOps { seed: u64, count: u8 },
     EvalAll { a: Reg },
@@ -252,6 +258,7 @@ impl Instr {
                 | PickCube { .. }
                 | PickUniform { .. }
                 | SatCount { .. }
+                | BigCount { .. }
                 | NatOps { .. }
                 | ZConst { .. }
                 | TConst { .. }
